@@ -3,6 +3,7 @@
    specification the engine is compared with; the theorems below are the scoping and loop
    bookkeeping clauses of the property, proved of that semantics for every program. *)
 From MJ Require Import Common.Base Lang.Syntax Lang.Meta Lang.Interp C03.Proofs.
+From MJ Require Import C04.Model L2.Instr L2.Compile L2.Vm L2.Simulation C03.L2Proofs.
 
 (* loop.index, index0, revindex, revindex0, first, last and length describe the position [i] in a
    sequence of length [n] actually iterated *)
@@ -72,6 +73,121 @@ Example scoping_witness :
   end.
 Proof. vm_compute. reflexivity. Qed.
 
+(* ============================================================================================
+   Bytecode level (L2).  [compile_expr] / [compile_stmts] / [compile_template] (L2/Compile.v) mirror
+   compiler/codegen.rs, [step] (L2/Vm.v) mirrors one turn of vm/mod.rs::eval_impl; on every run the
+   check compares the model compiler's stream with the instructions the real compiler emits for the
+   same program, opcode by opcode including jump targets and constants.  The theorems below say
+   that this compiler + VM compute what the reference interpreter above defines.
+   Vocabulary (L2/Simulation.v): [code_at C pc code]: [code] sits at index [pc] of the program [C];
+   [star c C]: zero or more VM steps; [l2_expr] / [l2_stmt]: the covered fragment.
+   ============================================================================================ *)
+
+(* constant folding never changes a result, whatever the fuel (C04's fold_agrees needs fuel >= depth):
+   if the folder answers v0 for e, any successful evaluation of e yields v0 and leaves the state alone *)
+Theorem folded_constant_is_evaluation : forall c esc fuel e v0, as_const e = Some v0 ->
+  forall s v s', eval c fuel esc s e = Ok (v, s') -> v = v0 /\ s' = s.
+Proof. exact fold_inv_all. Qed.
+
+(* Expressions.  For every expression without calls - constants, variables, lists, unary minus, not,
+   + - * // % ~, single and chained comparisons (in / not in included), and, or, if-expressions,
+   subscripts, attributes, filters, tests (negated or not) -, in every undefined mode, context,
+   state, auto-escape setting and for every fuel: if the interpreter evaluates e to v, changing the
+   state from s to s', then the VM started at the first instruction of e's code (placed anywhere in
+   any program, absolute jump targets and all) with any operand stack runs to the instruction after
+   that code with v pushed and exactly the state s'; nothing else of the machine changes. *)
+Theorem compile_expr_correct : forall c C fuel esc e, l2_expr e = true ->
+  forall s v s', eval c fuel esc s e = Ok (v, s') ->
+  forall base stk escs caps its calls, code_at C base (compile_expr e base) ->
+  star c C (mkVm base stk s esc escs caps its calls)
+           (mkVm (base + length (compile_expr e base)) (v :: stk) s' esc escs caps its calls).
+Proof. intros c C fuel esc e Hw s v s' He. exact (sim_all c C fuel esc e Hw s v s' He). Qed.
+
+(* Statements: raw text, emit, if / elif / else, set, set-block (with filter), with, filter block and
+   autoescape, nested in any way, over the expressions above; compiled for ANY enclosing-loop
+   context [lc].  If the interpreter runs the statements from s to s', the VM runs their code from
+   its first to the instruction after its last with the same operand stack, state s', and the
+   auto-escape flag / stack and the capture stack as they were (frames pushed by `with`, captures
+   begun by set / filter blocks and auto-escape settings are all undone: what C05 checks on the
+   real streams, here proved of the model compiler); no loop control leaves them. *)
+Theorem compile_stmts_correct : forall c C fuel l, forallb l2_stmt l = true ->
+  forall esc s sg s', exec_list c fuel esc s l = Ok (sg, s') ->
+  forall base lc stk escs caps its calls, code_at C base (compile_stmts l base lc) ->
+  sg = SigNormal /\
+  star c C (mkVm base stk s esc escs caps its calls)
+           (mkVm (base + length (compile_stmts l base lc)) stk s' esc escs caps its calls).
+Proof. intros c C fuel l Hw. exact (proj2 (stmts_sim c C fuel) l Hw). Qed.
+
+Theorem compile_stmt_correct : forall c C fuel t, l2_stmt t = true ->
+  forall esc s sg s', exec c fuel esc s t = Ok (sg, s') ->
+  forall base lc stk escs caps its calls, code_at C base (compile_stmt t base lc) ->
+  sg = SigNormal /\
+  star c C (mkVm base stk s esc escs caps its calls)
+           (mkVm (base + length (compile_stmt t base lc)) stk s' esc escs caps its calls).
+Proof. intros c C fuel t Hw. exact (proj1 (stmts_sim c C fuel) t Hw). Qed.
+
+(* Whole templates of that fragment: whenever the reference interpreter renders the template
+   (final state s: output chunks, scopes, recorded context look-ups), eval_impl's loop on the
+   compiled template terminates in exactly the same state - same output in particular.
+   PARTIAL - not covered by the simulation proof, tied to the code by the correspondence of the
+   check only (model stream = real stream; model VM = interpreter = engine on generated programs):
+     * for loops (loop frame, loop variable, else, filter = the accumulate loop, unpacking targets),
+       break / continue with the scope clean-up in front of the jump;
+     * macros (declaration behind a jump, defaults, closures: Enclose / GetClosure / BuildMacro),
+       calls of macros and functions (ECall, keyword arguments), call blocks and caller();
+     * the failing direction: that an evaluation error of the interpreter is the same error of the VM
+       (the theorem is a forward simulation of successful runs). *)
+Theorem compile_correct_partial : forall c fuel body s,
+  forallb l2_stmt body = true -> Interp.run c fuel body = Ok s ->
+  exists n, run_template c n (compile_template body) = Ok s.
+Proof. exact template_sim. Qed.
+
+(* non-vacuity: a program of the proved fragment (chained comparison with a variable, short-circuit
+   operators, if-expression without else, filters, tests, subscripts, if / elif / else, with,
+   set-block with filter, filter block, autoescape) is in the fragment, renders, and the VM on the
+   compiled code reaches the same state; the stream contains the cleanup block of the chain *)
+Example l2_witness :
+  let x := 100 in let y := 101 in
+  let prog :=
+    [SSet x (EList [EConst (LInt 3); EConst (LInt 5)]);
+     SIf [(ECmp (EConst (LInt 1)) [(CLt, EItem (EVar x) (EConst (LInt 0))); (CLe, EConst (LInt 3))],
+           [SEmit (EAnd (EVar x) (EFilter F_length (EVar x) []))]);
+          (ETest T_defined (EVar y) [] true, [SRaw [33]])]
+         (Some [SRaw [63]]);
+     SWith [(y, EBin OAdd (EItem (EVar x) (EConst (LInt 1))) (EConst (LInt 1)))]
+           [SSetBlock x [SEmit (EVar y); SRaw [97]] (Some F_upper); SEmit (EVar x)];
+     SFilterBlock F_upper [SRaw [98]; SEmit (EIf (EVar y) (EConst (LInt 1)) None)];
+     SAutoEscape (EConst (LBool true)) [SEmit (EConst (LStr [60]))];
+     SEmit (EOr (ECmp (EConst (LInt 7)) [(CNotIn, EVar x)]) (EVar y))] in
+  let cfg := mkCfg Lenient [] false in
+  forallb l2_stmt prog = true /\
+  match Interp.run cfg 50 prog, run_template cfg 200 (compile_template prog) with
+  | Ok s, Ok s' => s = s' /\ output_of s = [50; 54; 65; 66; 38; 108; 116; 59; 84; 114; 117; 101]    (* 2 6A B &lt; True *)
+  | _, _ => False
+  end /\
+  existsb (fun i => match i with ISwap => true | _ => false end) (compile_template prog) = true.
+Proof. vm_compute. repeat split. Qed.
+
+(* the model VM also runs what the proof does not cover (loops, loop controls, macros with defaults
+   and keyword arguments, call blocks): here by computation, on every run of the check against the
+   interpreter and the engine *)
+Example l2_beyond_the_proof :
+  let x := 100 in let y := 101 in let mname := 102 in let p := 103 in let m2 := 104 in
+  let prog := [SSet x (EConst (LInt 1));
+               SFor (TVar y) (EList [EConst (LInt 7); EConst (LInt 8); EConst (LInt 9)]) (Some (ECmp (EVar y) [(CNe, EConst (LInt 8))]))
+                    [SWith [(x, EVar y)] [SIf [(EAttr (EVar N_loop) A_last, [SBreak])] None; SEmit (EVar x)]] (Some [SRaw [69]]) false;
+               SMacro mname [p] [(p, EConst (LInt 4))] [SEmit (EVar p); SEmit (ECall N_caller [] [])];
+               SCallBlock mname [] [SRaw [99]];
+               SMacro m2 [p] [] [SEmit (EVar p); SEmit (EVar x)];
+               SEmit (ECall m2 [] [(p, EBin OAdd (EVar x) (EVar x))])] in
+  let cfg := mkCfg Lenient [] false in
+  forallb l2_stmt prog = false /\
+  match Interp.run cfg 50 prog, run_template cfg 500 (compile_template prog) with
+  | Ok s, Ok s' => output_of s = output_of s' /\ output_of s = [55; 52; 99; 50; 49]      (* 7 4c 21 *)
+  | _, _ => False
+  end.
+Proof. vm_compute. repeat split. Qed.
+
 Print Assumptions loop_fields_describe_iteration.
 Print Assumptions expressions_do_not_assign.
 Print Assumptions macro_assignments_invisible.
@@ -80,3 +196,8 @@ Print Assumptions with_assignments_invisible.
 Print Assumptions loop_assignments_invisible.
 Print Assumptions set_persists.
 Print Assumptions if_branch_runs_in_place.
+Print Assumptions folded_constant_is_evaluation.
+Print Assumptions compile_expr_correct.
+Print Assumptions compile_stmts_correct.
+Print Assumptions compile_stmt_correct.
+Print Assumptions compile_correct_partial.
